@@ -25,6 +25,7 @@ STRT = "TYPE\n  STR10 : STRING[10];\nEND_TYPE\n"
 SINIT = "TYPE\n  PT2 : PT := (x := 1);\nEND_TYPE\n"
 LATEB = "TYPE\n  LVL3 : LVL;\nEND_TYPE\n"
 SUBR_AS_LVL = "TYPE\n  LVL : INT (1..10);\nEND_TYPE\n"
+STR_AS_ARR = "TYPE\n  ARR : STRING[10];\nEND_TYPE\n"
 FB_AS_LVL = "FUNCTION_BLOCK LVL\n  VAR\n    x : INT;\n  END_VAR\n  x := 1;\nEND_FUNCTION_BLOCK\n"
 
 # scoping: a block that is valid on its own; its faulty version uses a name that IS declared - in a sibling declaration
@@ -41,6 +42,7 @@ KINDS = {
     "LB": ("LVL3", ["LVL"], LATEB),
     "RX": ("LVL", [], SUBR_AS_LVL),
     "CX": ("LVL", [], FB_AS_LVL),
+    "ASX": ("ARR", [], STR_AS_ARR),
     "E": ("LVL", [], ENUM),
     "E2": ("LVL2", ["LVL"], ALIAS),
     "S": ("PT", ["LVL"], STRUCT),
@@ -124,6 +126,15 @@ def scenarios():
     for k, base in (("R", ["E", "C", "R"]), ("R!", ["E", "C", "R"]), ("AR", ["E", "C", "AR"]), ("ST", ["E", "C", "ST"]),
                     ("SI", ["E", "S", "SI"]), ("LB", ["E", "LB", "C"]), ("S", ["E", "S", "C"]), ("E2", ["E", "E2", "C"])):
         sc["dupk_%s" % k.replace("!", "x")] = [(x, "none") for x in base] + [(k.rstrip("!"), "dup:" + k)]
+    # sets WITHOUT any program organization unit: duplicate data types must be found all the same
+    sc["dupk_tR"] = [("E", "none"), ("R", "none"), ("R", "dup:R")]
+    sc["dupk_tAR"] = [("E", "none"), ("AR", "none"), ("AR", "dup:AR")]
+    sc["dupk_tST"] = [("E", "none"), ("ST", "none"), ("ST", "dup:ST")]
+    sc["cross_tAS"] = [("E", "none"), ("AR", "none"), ("ASX", "none")]
+    # valid sets made of every kind of data type declaration (aliases, structure initialisations ... before / after what they need)
+    sc["validLB"] = [("E", "none"), ("LB", "none"), ("C", "none")]
+    sc["validT5"] = [("E", "none"), ("LB", "none"), ("S", "none"), ("SI", "none"), ("C", "none")]
+    sc["validT8"] = [("E", "none"), ("E2", "none"), ("LB", "none"), ("S", "none"), ("SI", "none"), ("R", "none"), ("AR", "none"), ("ST", "none")]
     sc["cross_RX"] = [(x, "none") for x in ["E", "C", "RX"]]
     sc["cross_CX"] = [(x, "none") for x in ["E", "C", "CX"]]
     sc["rule_R"] = [("E", "none"), ("C", "none"), ("R", "rule")]
